@@ -13,12 +13,16 @@
     mmap <A> via=<form>                             Matrix::map / MatrixView::map with x*x-x
     add|sub|mul|ewise <A> <B> via=<form>            operators / elementwise(x*y-y) → shape=… data=… | size=RxC data=… | panic(k)
     sadd|ssub|smul|sdiv <A> <scalar> via=<form>     scalar broadcasts
+    k <name> stack <srcs> <pos>:<dim> via=<arity>   TensorStack over tensor operands (C02 View model) → ok shape=… | none
+    k <name> chain <srcs> <dim> via=<arity>         TensorChain
+    elen <A> via=…                                  euclidean_length of a vector Tensor / Matrix (fp only) → value=… | panic(k)
     neg <A> via=<form>                              matrices only
     dot <A> <B> via=<form>                          scalar_product (1-D tensors)   → value=… | panic(k)
 
   `via=` names the owned/borrowed × container/view form the harness uses; the model has one answer.
 -/
 import EasyMl.Model.Arith
+import EasyMl.Model.ArithViews
 import Driver.Parse
 
 namespace Driver.C03
@@ -61,6 +65,8 @@ variable {α : Type} [Add α] [Sub α] [Mul α] [Div α] [Neg α] [Zero α] [Ele
 structure Env (α : Type) where
   tens : List (String × Operand String α) := []
   mats : List (String × MOperand α) := []
+  /-- the same tensor operands as C02 `View`s (sources of `TensorStack` / `TensorChain`) -/
+  views : List (String × View String α) := []
 
 def parseVals (s : String) : Option (List α) := (splitComma s).mapM Elem.parse
 
@@ -101,9 +107,28 @@ def stepEnv (e : Env α) (toks : List String) : Env α × String :=
     match parseShape shapeS, (parseVals valsS : Option (List α)) with
     | some shape, some vals =>
       match tensorFrom shape vals with
-      | .ok t => ({ e with tens := (name, .tensor t) :: e.tens }, "ok")
+      | .ok t => ({ e with tens := (name, .tensor t) :: e.tens,
+                           views := (name, View.tensor e.views.length t) :: e.views }, "ok")
       | .panic k => (e, s!"panic({k})")
     | _, _ => (e, "bad-op")
+  | "k" :: name :: kind :: srcsS :: alongS :: _ =>
+    -- TensorStack::from / TensorChain::from over C02 views (tuple arity / array: `via=`)
+    match (splitComma srcsS).mapM (fun n => (e.views.find? (·.1 = n)).map (·.2)) with
+    | none => (e, "no-operand")
+    | some srcs =>
+      let w : Option (View String α) :=
+        match kind with
+        | "stack" =>
+          match alongS.splitOn ":" with
+          | [p, n] => p.toNat?.bind fun pos => View.mkStack srcs (pos, n)
+          | _ => none
+        | "chain" => View.mkChain srcs alongS
+        | _ => none
+      match w with
+      | some w =>
+        ({ e with tens := (name, .view (TView.ofView w)) :: e.tens, views := (name, w) :: e.views },
+          s!"ok shape={showShape w.shape}")
+      | none => (e, "none")
   | ["v", name, src, kind, argS] =>
     match lookupT e src with
     | none => (e, "no-operand")
@@ -117,8 +142,26 @@ def stepEnv (e : Env α) (toks : List String) : Env α × String :=
         | "rename" => sv.rename (parseNames argS)
         | "range" => (parsePairs argS).bind sv.range
         | _ => none
+      -- the same adaptor in C02's model, when the source has a `View`
+      let w : Option (View String α) :=
+        match e.views.find? (·.1 = src) with
+        | none => none
+        | some (_, sw) =>
+          match kind with
+          | "access" => View.mkAccess sw (parseNames argS)
+          | "transpose" => View.mkTranspose sw (parseNames argS)
+          | "reverse" => View.mkReverse sw (parseNames argS)
+          | "rename" => View.mkRename sw (parseNames argS)
+          | "range" => (parsePairs argS).bind fun rs =>
+              View.mkRangeAll sw (rs.map fun (st, len) => some ⟨st, len⟩)
+          | _ => none
       match r with
-      | some v => ({ e with tens := (name, .view v) :: e.tens }, s!"ok shape={showShape v.shape}")
+      | some v =>
+        ({ e with tens := (name, .view v) :: e.tens,
+                  views := match w with
+                    | some w => (name, w) :: e.views
+                    | none => e.views },
+          s!"ok shape={showShape v.shape}")
       | none => (e, "none")
   | ["m", name, rowsS, colsS, valsS] =>
     match rowsS.toNat?, colsS.toNat?, (parseVals valsS : Option (List α)) with
@@ -214,7 +257,16 @@ def step (s : State) (toks : List String) : State × String :=
   | _ =>
     match s with
     | .none => (s, "no-case")
-    | .fp e => let (e', a) := stepEnv e toks; (.fp e', a)
+    | .fp e =>
+      match toks with
+      | "elen" :: a :: _ =>
+        -- euclidean_length needs `sqrt` (`Real`): prime-field runs only
+        match lookupT e a, lookupM e a with
+        | some (.tensor t), _ => (s, s!"value={Elem.render (tensorEuclideanLength t)}")
+        | _, some (.matrix m) =>
+          (s, showOutcome (fun (x : Fp) => s!"value={Elem.render x}") (matrixEuclideanLength m))
+        | _, _ => (s, "no-operand")
+      | _ => let (e', a) := stepEnv e toks; (.fp e', a)
     | .rat e => let (e', a) := stepEnv e toks; (.rat e', a)
     | .int e => let (e', a) := stepEnv e toks; (.int e', a)
 
